@@ -4,7 +4,7 @@ from __future__ import annotations
 import ast
 
 from .. import astq, codec, reference
-from ..absint import ADict, AList, AObj, LenV, Opaque, SeqVar
+from ..absint import AbsRaise, ADict, AList, AObj, LenV, Opaque, SeqVar
 from ..bits import AV, Sym
 from ..fold import ClassRef, FuncRef
 from ..intset import IntSet
@@ -345,100 +345,89 @@ def r01_5(ctx):
     ok = len(res) == 1 and res[0].kind == 'return' and isinstance(res[0].value, AObj) \
         and isinstance(res[0].value.attrs.get('data'), AList) and res[0].value.attrs['data'].kind == 'tuple'
     ctx.require(ok, 'R01.5', 'from_bytes.sysex', w, f'sysex from_bytes result {res}', construct=f'{fb.qname}::sysex')
-    # default time
-    fh = ctx.fn(ctx.p.func(codec.MSG_MOD, 'Message.from_hex'))
-    w = ctx.where(fh)
-    fwd = False
-    for c in astq.calls(fh.node):
-        if isinstance(c.func, ast.Attribute) and c.func.attr == 'from_bytes':
-            ctx.call_sites += 1
-            tv = astq.arg_or_kw(c, 1, 'time')
-            fwd = isinstance(tv, ast.Name) and tv.id == 'time'
-            a0 = c.args[0] if c.args else None
-            fromhex = isinstance(a0, ast.Call) and unparse(a0.func) == 'bytearray.fromhex' or \
-                isinstance(a0, ast.Call) and unparse(a0.func) == 'bytes.fromhex'
-            ctx.require(fromhex, 'R01.6', 'from_hex.fromhex', w,
-                        'from_hex does not decode with bytearray.fromhex (two hex digits per byte)',
-                        construct=f'{fh.qname}::fromhex')
-    ctx.require(fwd, 'R01.5', 'from_hex.time', w, 'from_hex does not forward time=time to from_bytes',
-                construct=f'{fh.qname}::time')
 
 
 def r01_6(ctx):
-    """bin / hex agree with bytes()."""
-    base = ctx.p.cls(codec.MSG_MOD, 'Message')
-    o, binf = ctx.p.lookup_method(base, 'bin')
-    o, hexf = ctx.p.lookup_method(base, 'hex')
-    if binf is None or hexf is None:
-        raise AnalysisError('Message.bin/hex not found')
-    ctx.fn(binf)
-    ctx.fn(hexf)
-    rets = [n for n in astq.walk_shallow(binf.node) if isinstance(n, ast.Return)]
-    ok = len(rets) == 1 and isinstance(rets[0].value, ast.Call) and unparse(rets[0].value.func) in ('bytearray', 'bytes') \
-        and len(rets[0].value.args) == 1 and unparse(rets[0].value.args[0]) == 'self.bytes()'
-    ctx.require(ok, 'R01.6', 'bin', ctx.where(binf), 'bin() is not bytearray(self.bytes())', construct=f'{binf.qname}::shape')
-    # hex: every byte of self.bytes() formatted with a 2 digit zero padded hex spec, joined by sep
-    w = ctx.where(hexf)
-    rets = [n for n in astq.walk_shallow(hexf.node) if isinstance(n, ast.Return)]
-    ok = False
-    why = 'hex() is not sep.join(<two-digit hex of each byte of self.bytes()>)'
-    if len(rets) == 1 and isinstance(rets[0].value, ast.Call):
-        c = rets[0].value
-        if isinstance(c.func, ast.Attribute) and c.func.attr == 'join' and isinstance(c.func.value, ast.Name) \
-                and c.func.value.id == 'sep' and len(c.args) == 1 and isinstance(c.args[0], (ast.GeneratorExp, ast.ListComp)):
-            g = c.args[0]
-            if len(g.generators) == 1 and unparse(g.generators[0].iter) == 'self.bytes()' and not g.generators[0].ifs:
-                var = g.generators[0].target
-                spec = _hex_spec(g.elt, var)
-                if spec in ('02X', '02x'):
-                    ok = True
-                else:
-                    why = f'hex() formats each byte with {spec!r}; two zero padded hex digits (02X) are required by fromhex'
-    ctx.require(ok, 'R01.6', 'hex', w, why, construct=f'{hexf.qname}::format')
-    sep_default = None
-    a = hexf.node.args
-    for pa, d in zip(a.args[-len(a.defaults):], a.defaults):
-        if pa.arg == 'sep':
-            sep_default = astq.const_value(d)
-    ctx.require(sep_default == ' ', 'R01.6', 'hex.sep', w, f'default separator is {sep_default!r}, from_hex expects whitespace',
-                construct=f'{hexf.qname}::sep')
-
-
-def _hex_spec(elt, var):
-    if isinstance(elt, ast.JoinedStr) and len(elt.values) == 1 and isinstance(elt.values[0], ast.FormattedValue):
-        fv = elt.values[0]
-        if isinstance(var, ast.Name) and isinstance(fv.value, ast.Name) and fv.value.id == var.id and fv.format_spec is not None:
-            parts = fv.format_spec.values
-            if len(parts) == 1 and isinstance(parts[0], ast.Constant):
-                return parts[0].value
-    if isinstance(elt, ast.Call) and isinstance(elt.func, ast.Attribute) and elt.func.attr == 'format' \
-            and isinstance(elt.func.value, ast.Constant) and isinstance(elt.func.value.value, str):
-        s = elt.func.value.value
-        if s.startswith('{:') and s.endswith('}') and len(elt.args) == 1:
-            return s[2:-1]
-    if isinstance(elt, ast.BinOp) and isinstance(elt.op, ast.Mod) and isinstance(elt.left, ast.Constant):
-        s = elt.left.value
-        if isinstance(s, str) and s.startswith('%'):
-            return s[1:]
-    if isinstance(elt, ast.Call) and isinstance(elt.func, ast.Name) and elt.func.id == 'format' and len(elt.args) == 2:
-        return astq.const_value(elt.args[1])
-    return None
-
-
-def r01_bytes(ctx):
-    """Message.bytes() is encode_message(vars(self))."""
+    """bytes() / bin() / hex() / from_hex agree, for every message type with symbolic attribute values (abstractly interpreted
+    in the string domain): bytes() is the encoder applied to the message's own attributes, bin() holds the same items, the text
+    hex() produces denotes exactly those bytes (two digits per byte, separator between pairs only) for the default and for a
+    custom separator, and from_hex of that text gives back the message with the time passed in."""
+    from .. import strdom, wire
     cls = ctx.p.cls(codec.MSG_MOD, 'Message')
-    o, fn = ctx.p.lookup_method(cls, 'bytes')
-    if fn is None:
-        raise AnalysisError('Message.bytes not found')
-    ctx.fn(fn)
-    rets = [n for n in astq.walk_shallow(fn.node) if isinstance(n, ast.Return)]
-    ok = len(rets) == 1 and isinstance(rets[0].value, ast.Call) and \
-        astq.callee_qname(ctx.p, fn, rets[0].value) == 'mido/messages/encode.py::encode_message' and \
-        len(rets[0].value.args) == 1 and unparse(rets[0].value.args[0]) in ('vars(self)', 'self.__dict__')
-    ctx.require(ok, 'R01.7', 'bytes', ctx.where(fn), 'Message.bytes() is not encode_message(vars(self))',
-                construct=f'{fn.qname}::shape')
+    meths = {}
+    for nm in ('bytes', 'bin', 'hex'):
+        o, f = ctx.p.lookup_method(cls, nm)
+        if f is None:
+            raise AnalysisError(f'Message.{nm} not found')
+        meths[nm] = ctx.fn(f)
+    fh = ctx.fn(ctx.p.func(codec.MSG_MOD, 'Message.from_hex'))
+    enc = ctx.fn(ctx.p.func(codec.ENC_MOD, 'encode_message'))
+    doms = codec.attr_domains(ctx)
+    syms = codec.attr_syms(doms)
+    ai = codec.make_interp(ctx)
+    strdom.install(ai)
+    tmark = Opaque('TIME-MARKER')
+    n = 0
+    for row in codec.specs(ctx):
+        t = row['type']
+        if any(nm != 'data' and nm not in syms for nm in row['value_names']):
+            continue
+        n += 1
+        data = AList([AV.of_sym(Sym('x0', 127)), AV.of_sym(Sym('x1', 127))], 'tuple')
+        d = codec.msg_dict(t, row['value_names'], syms, time=0, data=data)
+        holder = {}
+
+        def thunk():
+            m = AObj(cls, dict(d.d), name=f'msg:{t}')
+            holder['m'] = m
+            ref = ai.call_function(enc, [ADict(dict(d.d))], {})
+            b = ai.call_function(meths['bytes'], [m], {})
+            bn = ai.call_function(meths['bin'], [m], {})
+            h = ai.call_function(meths['hex'], [m], {})
+            hc = ai.call_function(meths['hex'], [m, ':'], {})
+            back = ai.call_function(fh, [ClassRef(cls), h], {'time': tmark})
+            back2 = ai.call_function(fh, [ClassRef(cls), hc], {'time': tmark, 'sep': ':'})
+            return ref, b, bn, h, hc, back, back2
+        outs = ai.explore(thunk)
+        wb, wh, wf = ctx.where(meths['bytes']), ctx.where(meths['hex']), ctx.where(fh)
+        if len(outs) != 1 or outs[0].kind != 'return':
+            ctx.fail('R01.6', f'codec-agreement({t})', wh, f'bytes/bin/hex/from_hex do not complete on one path: {outs}',
+                     construct=f'{meths["hex"].qname}::{t}::outcomes')
+            continue
+        ref, b, bn, h, hc, back, back2 = outs[0].value
+
+        def items(v):
+            return list(v.items) if isinstance(v, AList) else list(v) if isinstance(v, (list, tuple, bytes, bytearray)) else None
+        ri, bi, bni = items(ref), items(b), items(bn)
+        ctx.require(ri is not None and bi is not None and wire.items_equal(ri, bi), 'R01.7', f'bytes({t})', wb,
+                    f'bytes() gives {b!r}; encode_message on the message attributes gives {ref!r}', construct=f'{meths["bytes"].qname}::shape')
+        ctx.require(bni is not None and bi is not None and wire.items_equal(bni, bi), 'R01.6', f'bin({t})', ctx.where(meths['bin']),
+                    f'bin() holds {bn!r}, bytes() gives {b!r}', construct=f'{meths["bin"].qname}::shape')
+        for text, sep, label in ((h, None, 'hex()'), (hc, ':', "hex(':')")):
+            ok = False
+            why = f'{label} gives {text!r}'
+            try:
+                ss = strdom.to_sstr(text)
+                if ss is not None:
+                    if sep is not None:
+                        ss = strdom.norm(strdom.SStr([x.replace(sep, ' ') if isinstance(x, str) else x for x in ss.segs]))
+                    denoted = strdom.fromhex(ss)
+                    ok = denoted is not None and bi is not None and wire.items_equal(denoted, bi)
+                    why = f'{label} gives {text!r}, which denotes {denoted!r}; bytes() gives {b!r}'
+            except AbsRaise:
+                why = f'{label} gives {text!r}, which is not a sequence of two-digit hex pairs separated by {sep or "whitespace"!r}'
+            ctx.require(ok, 'R01.6', f'{label}({t})', wh, why, construct=f'{meths["hex"].qname}::format')
+        for bk, label in ((back, 'from_hex(hex())'), (back2, "from_hex(hex(':'), sep=':')")):
+            ok = isinstance(bk, AObj) and bk.attrs.get('time') is tmark and bk.attrs.get('type') == t and all(
+                wire.value_equal(bk.attrs.get(k), v) or (isinstance(v, AList) and isinstance(bk.attrs.get(k), AList)
+                                                         and wire.items_equal(bk.attrs[k].items, v.items))
+                for k, v in d.d.items() if k not in ('time', 'type'))
+            ctx.require(ok, 'R01.5', f'{label}({t})', wf, f'{label} gives {bk!r}; expected the attributes of the original and the time passed in',
+                        construct=f'{fh.qname}::roundtrip')
+    ctx.floor('R01.6', n, 18)
+    for q in ai.inlined:
+        ctx.functions.add(q)
 
 
 RULES = [('R01.0', r01_0), ('R01.1', r01_1), ('R01.2', r01_2), ('R01.3', r01_3), ('R01.4', r01_4),
-         ('R01.5', r01_5), ('R01.6', r01_6), ('R01.7', r01_bytes)]
+         ('R01.5', r01_5), ('R01.6', r01_6)]
